@@ -457,6 +457,19 @@ example :
     ∧ topoSortRegions [[(0, ⟨1, 1⟩)], [(1, ⟨1, 1⟩), (0, ⟨0, 0⟩)], [(1, ⟨0, 0⟩), (2, ⟨1, 1⟩)],
         [(2, ⟨0, 0⟩), (0, ⟨2, 2⟩)]] = none := by decide
 
+/-- **The hole behind recorded finding F5, stated for all regions**: if two regions are ordered one
+    way on one shared qudit (`r` before `s` on `q1`) and the other way on another (`s` before `r` on
+    `q2`) - blocks that cannot both be emitted whole in any order - then `depends_on` sees no
+    dependency in either direction, so `topo_sort` is free to emit them in any order, and `r < s`
+    raises ValueError.  (`GreedyPartitioner` can select such pairs; the algebra reports them only
+    through `<`, which the partitioner does not call.) -/
+theorem C08_region_mixed_pair (r s : BqVerif.Region.Region) (hr : r.wf = true) (hs : s.wf = true)
+    (q1 q2 : Nat) (a1 b1 a2 b2 : Iv)
+    (h1r : r.get q1 = some a1) (h1s : s.get q1 = some b1) (h1 : a1.lt b1 = true)
+    (h2r : r.get q2 = some a2) (h2s : s.get q2 = some b2) (h2 : b2.lt a2 = true) :
+    r.dependsOn s = false ∧ s.dependsOn r = false ∧ r.ltRegion s = .error .value :=
+  BqVerif.Region.Region.mixed_pair r s hr hs q1 q2 a1 b1 a2 b2 h1r h1s h1 h2r h2s h2
+
 /-- non-vacuity: two blocks of a 3-qudit circuit, the second after the first on qudit 1 -/
 example :
     let r : BqVerif.Region.Region := [(1, ⟨2, 3⟩), (2, ⟨0, 3⟩)]
